@@ -25,7 +25,17 @@ def run(tier, only=None):
 
     items = f10.pairs(tier)
     if only:
-        items = [i for i in items if only in i[1] or only in i[2]]
+        import re
+
+        def hit(i):
+            if only in i[1] or only in i[2]:
+                return True
+            try:
+                return re.search(only, i[1] + " " + i[2]) is not None
+            except re.error:
+                return False
+
+        items = [i for i in items if hit(i)]
     if tier == "quick" and len(items) > 1600:
         step = len(items) / 1600.0
         items = [items[int(i * step)] for i in range(1600)]
